@@ -18,6 +18,7 @@ import os
 
 from common import (BuildError, REPO, SHIM_FLAGS, SHIM_SRC, cxx_build, drv, first_diff, gen_write, log, sh)
 import c16b
+import c16c
 
 INT_MAX = (1 << 31) - 1
 
@@ -45,9 +46,11 @@ def gen(ck):
     for k in ("numPriorityLevels", "refExternalBits", "intBits", "pendingWordBits"):
         body += "def %s : Nat := %d\n" % (k, c[k])
     text2, obl2, srcs2 = c16b.gen_part2()
-    gen_write("C16", body + text2)
+    text3, obl3, srcs3 = c16c.gen_part3()
+    gen_write("C16", body + text2 + text3)
+    srcs2.update(srcs3)
     ck.extra["generated_conditions"] = srcs2
-    for name, ok, detail in obl2:
+    for name, ok, detail in obl2 + obl3:
         ck.oblige(name, "generated", ok, detail)
     ck.oblige("gen:pendingDeltaBase is a power of two below 2^30 (mask/counter arithmetic of update())", "generated",
               base == 1 << lg and 1 <= base < (1 << 30), c)
@@ -862,7 +865,11 @@ def run(ck):
                "(isolation with plain / mailed / enqueued / critical / nested work, mandatory concurrency incl. out_of_work while a slot holds a task the idle "
                "isolated thread cannot take, worker budget L=1..3, observers with arenas created and destroyed, over-subscribed and one-thread arenas) and random "
                "programs (1-3 external threads, 1-2 arenas of 1-3 slots, L=1..4, nested tg / pfor / isolate / enqueue / critical, observers, quiescence checks) "
-               "under seeded random schedules with 5 different stay probabilities; one process per run")
+               "under seeded random schedules with 5 different stay probabilities; one process per run. "
+               "Third part: E-PURE 'nest' puppet: random sequences (20-300 operations, 2-4 slots, up to 8 dispatchers) with REAL nested isolate_within_arena / task_arena::execute calls "
+               "(address tags incl. re-use, explicit tags 101/102, 35% of the regions left by exception), waits, spawns, takes incl. resume stream, steal_or_get_critical, "
+               "get_critical_task(t) (bypass / displacement), stack switches; whole-runtime programs extended with isot (throwing isolate functor), byp (bypassed task), waits after nested "
+               "scopes; life-cycle traces (every access to my_references / my_num_workers_allotted / my_limit / my_is_occupied) of ~140 (quick) whole-runtime runs validated step by step")
     ck.assumptions += [
         "modelled: update_allotment (exact loop structure), arena::update_request, market adjust_demand/set_active_num_workers words, "
         "thread_request_serializer (limit_delta, packed my_pending_delta, update/drain under interleaving, proxy mandatory concurrency), "
@@ -873,13 +880,28 @@ def run(ck):
         "maintain sequentially); the atomic-flag protocol of the arena (my_pool_state / my_mandatory_concurrency) is not modelled here",
         "WF (market words = sums of client requests) is a hypothesis of the allotment theorems; it is checked on every state the real market reaches in the "
         "op-sequence runs (sampled), not proved for the machine",
-        "per-arena num_workers_active <= allotted is NOT claimed: try_join is check-then-add under a shared lock (transient overshoot bounded by the slot count, "
-        "corrected by recall); the budget theorem is about the allotment and about the sum handed to the thread server",
-        "isolation is modelled at the level of one serialised operation per container (the atomic-access protocols of the deque, proxy, mailbox and stream are C01's); "
-        "not modelled: the resume stream (resume tasks carry no_isolation and are exempt by an assertion in the dispatcher), bypassed tasks (inherit the execute data), the re-spawn "
-        "of a stolen task when a critical task is found right after the steal, task_arena::execute inside isolate (it resets the isolation word: by design), and re-use of an "
-        "isolation tag (the address of the delegate) by a later region while tasks of the earlier region are still outstanding",
-        "isolation tags: the theorem identifies a region with its tag; two regions that are alive at the same time have different tags (addresses of live stack objects)",
+        "per-arena num_workers_active <= allotted does NOT hold: try_join is check-then-add under a shared lock (example in Props/C16.lean, overshoot 1 observed in the "
+        "validated traces); proved instead (workers_inside_bounded, slots_unique_lifecycle, references_exact): workers inside <= num_workers_active, <= num_slots - reserved, "
+        "threads inside <= num_slots, at every instant of every interleaving; the budget theorem is about the allotment and about the sum handed to the thread server",
+        "isolation is modelled at the level of one serialised operation per container (the atomic-access protocols of the deque, proxy, mailbox and stream are C01's). "
+        "Model/C16Iso.lean (older, kept): one region level = its tag.  Model/C16Nest.lean: isolate_within_arena as a stack discipline per task dispatcher — nested at will, "
+        "normal and exceptional exit (the save / capture / restore skeleton is regenerated from the source), task_arena::execute inside a region (same-arena path of "
+        "nested_arena_context; the other-arena path performs the same two assignments on the other arena's slot dispatcher), resume stream (unfiltered), bypassed tasks, the "
+        "critical task that displaces a stolen / bypassed / initial task (re-spawn), extra dispatchers and arbitrary stack switches (attach is unconstrained: a superset of what "
+        "suspend / resume / recall do; the coroutine switch itself is C20's).  Not modelled: resume tasks pushed into the CRITICAL stream when the target runs a critical task "
+        "(they carry no_isolation and are found only by loops without isolation), more than one arena",
+        "isolation tags are addresses: the model takes the tag as an input of `isolate` under the environment assumption that the address of a live local is not the tag of any "
+        "live region (an explicit tag may equal another live EXPLICIT tag: isolated_task_group, collaborative_call_once).  The nest puppet reports the real addresses and the "
+        "model must accept them (checked on every run).  After a region has ended its tag may come again: isolation_tag_reuse_safe states what then holds; the residue (a task that "
+        "outlived its region is executed by the waiter of a later region with the same address) is the known finding isolation-tag-reuse-foreign-task-in-later-region, demonstrated "
+        "on a real arena with the real isolate_within_arena (own obligation) and on the uninstrumented library (harness/c16/demo_isolation_tag_reuse.cpp); the random whole-runtime "
+        "programs never let a task outlive its region (every run/crit/byp/enq inside iso sits in a task_group waited for inside the region)",
+        "tLive / gLive in isolation_tag_reuse_safe are ghost facts recorded at each take; that they hold for scoped programs is by construction of the programs, not a theorem; "
+        "isolation_direct_wait proves gLive for a loop entered directly from the isolate functor",
+        "worker life cycle (Model/C16Life.lean): my_references is modelled as its two fields (external, worker) — no carry, i.e. fewer than 2^ref_external_bits external references; "
+        "a worker leaves only after an is_recall_requested() poll that answered true (is_worker_should_leave; the top-priority variant additionally needs an empty pool: a subset); "
+        "the 1 ms linger loop of outermost_worker_waiter is a sequence of polls; thread_dispatcher's choice of the client and the shared lock are not modelled (any interleaving of "
+        "try_join calls is allowed: a superset); arena destruction is not modelled (the validator stops at the constructor's store of a new arena object in the same memory)",
         "mandatory concurrency: one arena; has_tasks() is an oracle (its value is irrelevant to the mandatory accounting); the two critical sections of adjust_demand are atomic steps; "
         "the allotment consequence (no worker under soft limit 0 without a mandatory request) is allot_softzero_none",
         "observers: one notification pass is one step (the list is protected by a reader-writer lock); a proxy is never unlinked in the model (unlinking an unreferenced dead proxy "
@@ -901,7 +923,10 @@ def run(ck):
                    "arena words my_max_num_workers set directly)", "harness/shim (E-SHIM runtime)", "checks/c16.py + checks/c16b.py monitors, line formats and the regex / expression translator of the E-GEN conditions",
                    "harness/c16/rt.cpp (whole-runtime scenario interpreter, ghost-state monitors, puppet that plays every slot of a real arena from one thread; "
                    "isolate_within_arena's two statements and the dispatcher's `ed.isolation = isolation(*t)` after get_task are replayed by the puppet, their text is E-GEN checked)",
-                   "Driver/C16.lean: composition of one receive_or_steal_task pass from model operations (c16iso), inference of silent steps / oracles from the trace (c16mand)",
+                   "Driver/C16.lean: composition of one receive_or_steal_task pass from model operations (c16iso, c16nest), inference of silent steps / oracles from the trace (c16mand), "
+                   "choice among the enabled life-cycle steps / environment steps that reproduce a logged access, reads outside the protocol accepted when they see the model's value (c16life)",
+                   "checks/c16c.py (E-GEN regexes for the isolate_within_arena skeleton etc., nest / life monitors); harness/c16/rt.cpp `nest` puppet: loops are virtual frames, a resume task is a "
+                   "dummy task whose tag is set as suspend_point_type's constructor does (text E-GEN checked), extra dispatchers are constructed directly (as create_coroutine does)",
                    "correspondence is sampled (differential), not proved"]
     exe, consts = gen(ck)
     ck.extra["model_ok"] = bool(ck.lean_stage())
@@ -920,7 +945,9 @@ def run(ck):
     c16b.run_mand(ck, exe, sh, drv)
     rt = c16b.build_rt()
     c16b.run_iso(ck, rt, sh, drv, first_diff)
-    c16b.run_rt(ck, rt, sh)
+    c16c.run_nest(ck, rt, sh, drv, first_diff)
+    results = c16b.run_rt(ck, rt, sh)
+    c16c.run_life(ck, rt, sh, drv, results)
 
 
 def replay(ck, obj):
@@ -973,7 +1000,7 @@ def replay(ck, obj):
             if w[0] != "reset" and (int(f["value"]) != (min(lv.values()) if lv else r["default"]) or int(f["soft"]) != int(f["value"]) - 1):
                 print("monitor: active value / applied limit wrong here")
                 still = True
-    elif mode in ("mand", "iso", "scen"):
+    elif mode in ("mand", "iso", "scen", "nest", "life"):
         still = c16b.replay_part2(ck, r, sh, drv)
     else:
         rc, runs, out, err = shim_run(exe, mode, r["stdin"], "replay", r["schedule"], 1)
